@@ -868,6 +868,14 @@ func c20For(r *Rec, prop string, alias map[string]string) {
 			c20BondEpisode(r, 1000+i)
 		}
 	}
+	// bond episodes with prefix-related dApp names (the keeper's bond scans are prefix scans)
+	np := 5
+	if r.Tier == "thorough" {
+		np = 40
+	}
+	for k := 0; k < np; k++ {
+		c20BondEpisode(r, 2004+5*k)
+	}
 	r.OnlyProp, r.Alias = "", nil
 	r.Mark("l2 done")
 }
